@@ -342,6 +342,31 @@ const SOURCES: &[&str] = &[
     "timestamp(x).getHours('Nowhere/Land')",
 ];
 
+/// a program that needs `levels` nested interpreter calls (31 is exactly the whole call-depth budget)
+fn deep_nest(levels: usize) -> String {
+    format!("{}s{}", "[s].all(e, ".repeat(levels), ")".repeat(levels))
+}
+
+/// SOURCES plus programs that use (almost) the whole call-depth budget: they only evaluate when
+/// nothing of the budget was lost to earlier executions
+fn all_sources() -> &'static Vec<String> {
+    static ALL: std::sync::OnceLock<Vec<String>> = std::sync::OnceLock::new();
+    ALL.get_or_init(|| {
+        let mut v: Vec<String> = SOURCES.iter().map(|s| s.to_string()).collect();
+        for levels in [31, 31, 30, 29, 24] {
+            v.push(deep_nest(levels));
+        }
+        // runaway recursion: ends in the depth-limit error
+        v.push("main + 1".to_string());
+        v.push("[1].map(e, main)".to_string());
+        // map comparisons where one entry fails and another differs: the visiting order decides
+        v.push("{'a': 1 / (x - x), 'b': 1, 'c': 1} == {'a': 1, 'b': 2, 'c': 3}".to_string());
+        v.push("{'k1': y, 'k2': 1 / (x - x), 'k3': x, 'k4': 0} != {'k1': x, 'k2': 1, 'k3': y, 'k4': 0}".to_string());
+        v.push("[m == {'q': 1, 'a': 1 / (x - x), 'zz': 2, 'b': 7, 'k1': 2, 'k2': 2}]".to_string());
+        v
+    })
+}
+
 fn gen_op(g: &mut G, env: &Env, cfg: &Cfg) -> Op {
     match g.below(12) {
         0 | 1 | 2 => {
@@ -353,7 +378,8 @@ fn gen_op(g: &mut G, env: &Env, cfg: &Cfg) -> Op {
                 let e = gen_expr(g, cfg, &e2, Ty::Any);
                 render_min(&e)
             } else {
-                let s = g.pick_str(SOURCES);
+                let all = all_sources();
+                let s = all[g.below(all.len())].as_str();
                 // keep references acyclic (see above); `main + 1` is the one deliberate self-reference
                 let ok = match name {
                     0 => true,
@@ -433,6 +459,9 @@ fn small_alphabet() -> Vec<Op> {
         Op::Add { ctx: 0, name: 1, src: "a".into() },
         Op::Add { ctx: 0, name: 0, src: "s.matches('s.r')".into() },
         Op::Add { ctx: 0, name: 0, src: "s.matches('(')".into() },
+        // a runaway recursion (ends in the depth-limit error), then a program that needs the whole budget
+        Op::Add { ctx: 0, name: 0, src: "a + 1".into() },
+        Op::Add { ctx: 0, name: 0, src: deep_nest(31) },
         Op::Bind { b: 0, var: "x".into(), val: V::Int(1) },
         Op::Bind { b: 0, var: "x".into(), val: V::Int(2) },
         Op::Bind { b: 1, var: "x".into(), val: V::Int(3) },
@@ -522,7 +551,7 @@ fn run(opts: &Opts, acc: &mut Acc) {
                 a.fail(f);
             }
         });
-        acc.mark_exhaustive("short-sequences", "all sequences of length 1..3 over a 14-operation alphabet, each followed by three observing execs");
+        acc.mark_exhaustive("short-sequences", "all sequences of length 1..3 over a 16-operation alphabet, each followed by three observing execs");
         let mut binds = BTreeMap::new();
         binds.insert("x".to_string(), V::Int(3));
         binds.insert("l".to_string(), V::List((0..40).map(V::Int).collect()));
@@ -540,6 +569,10 @@ fn run(opts: &Opts, acc: &mut Acc) {
             "m.map(k, [10 / m[k]][m[k]])",
             "{'b': x, 'a': x - 3, 'c': x}.filter(k, [1 / ({'b': x, 'a': x - 3, 'c': x}[k])][{'b': x, 'a': x - 3, 'c': x}[k]] > 0)",
             "coalesce(m.map(k, m[k] == 0 ? zz : 1 / 0), 'none')",
+            "{'a': 1 / (x - 3), 'b': 1, 'c': 1} == {'a': 1, 'b': 2, 'c': 3}",
+            "{'a': 1 / (x - 3), 'b': 1, 'c': 1, 'd': 1, 'e': 1} != {'a': 1, 'b': 2, 'c': 3, 'd': 1, 'e': 0}",
+            "m == {'key0': 1 / (x - 3), 'key1': 0, 'key2': 0, 'key3': 3, 'key4': 4, 'key5': 5, 'key6': 6, 'key7': 7, 'key8': 8, 'key9': 9, 'key10': 10, 'key11': 11}",
+            "[x, 1 / (x - 3)] == [0, 1]",
             "s.matches('s.r') ;; s.matches('(') ;; s.matches('(') ;; s.matches('^x') ;; s.matches('s.r')",
             "'str'.matches('s.r') ;; 'str'.matches('(')",
             "timestamp(x).getHours('Europe/Berlin') ;; timestamp(x).getHours('Nowhere/Land') ;; timestamp(x).getHours('Nowhere/Land') ;; timestamp(x).getHours('+02:00')",
